@@ -1,10 +1,10 @@
 SPECIFICATION Spec
 CONSTANTS
-  N = 3
+  N = 2
   Inc = 2
   MaxH = 3
   MaxReq = 1
-  DesigSets <- DesigTwo
+  DesigSets <- DesigTwo2
   FeeSet <- FeesOne
   MaxNet = 4
   AllowFast = FALSE
